@@ -27,10 +27,11 @@ def take(inp, idx, scale=Fraction(1)):
 
 class P(Prop):
     ID = "C11"
-    THEOREMS = ["C11_split", "C11_permute", "C11_scale", "C11_single_point", "C11_duration", "C11_parts_add"]
-    MAKE_TARGETS = ["theories/Props/C11.vo", "theories/Check/Check_C11.vo"]
+    THEOREMS = ["C11_split", "C11_permute", "C11_scale", "C11_single_point", "C11_duration", "C11_parts_add",
+                "C11_system_split", "C11_system_permute", "C11_system_scale", "C11_system_single_point", "C11_system_duration"]
+    MAKE_TARGETS = ["theories/Props/C11.vo", "theories/Check/Check_C11.vo", "theories/Check/Check_C01.vo"]
     CHECK_REQUIRE = ("From Coq Require Import QArith List Bool.\nFrom Feems Require Import Base.Num Model.FuelRecord Model.Result "
-                     "Model.SysResult Check.Check_C18 Check.Check_C19 Check.Check_C11.\nOpen Scope Q_scope.")
+                     "Model.SysResult Model.Bus Model.ElecBalance Model.Plant Check.Check_C01 Check.Check_C18 Check.Check_C19 Check.Check_C11.\nOpen Scope Q_scope.")
     RULE = ("electric plants (1-3 switchboards with breaker and status changes inside the series, numeric 0/1 breaker status "
             "arrays in half of the cases) and mechanical plants, series of 2-6 steps with irregular intervals: the whole run on one "
             "object; every two-way split, the single steps, a permutation of the steps and a rescaling of the intervals on FRESH "
@@ -63,6 +64,19 @@ class P(Prop):
                         ci.update({"status": [True] * n, "lsm": [Fraction(1)] * n, "pin": pin})
                         c["cancelling_storage_series"] = True
                         break
+            # end to end: every fuel consumer a plain genset with ONE specific-consumption value and ONE efficiency value, so that
+            # the whole calculation (balance -> engine power -> fuel, running hours) is a rational function the model evaluates
+            if kind == "electric" and rng.random() < 0.5:
+                import plantgen as pg
+                for d in c["plant"]["comps"]:
+                    if pg.kind_of(d["cls"]) == "Source":
+                        d["cls"] = rng.choice(["genset", "genset", "genset_rect"])
+                        d["eff"] = [Fraction(rng.randint(56, 64), 64)]
+                        d["rect_eff"] = [Fraction(rng.randint(60, 64), 64)]
+                        d["engine"] = {"rated": Fraction(d["rated"]) * 2, "bsfc": [Fraction(rng.randint(160, 240))],
+                                       "fuel": rng.choice(["DIESEL", "DIESEL", "HFO"])}
+                        d.pop("fc", None); d.pop("cogas", None)
+                c["e2e"] = True
             c["split"] = rng.randint(1, n - 1)
             # a periodic breaker schedule (two configurations A and B alternating, held for irregular numbers of steps), cut at
             # a period boundary: both parts run through the same sequence of configurations at different steps
@@ -144,6 +158,15 @@ class P(Prop):
             inp = {**inp, "matrix_api": True}
         try:
             whole = self.one(case, inp)
+            e2e = None
+            if case.get("e2e"):
+                import plantgen as pg
+                with np.errstate(all="ignore"):
+                    sysm_, objs_, res_ = sysrun.run_electric(case["plant"], {k_: v_ for k_, v_ in inp.items() if k_ != "matrix_api"})
+                e2e = {"pin": [[float(x) for x in np.atleast_1d(o.power_input)] if pg.kind_of(d["cls"]) == "Consumer" else []
+                               for d, o in zip(case["plant"]["comps"], objs_)],
+                       "rated": [float(o.rated_power) for o in objs_],
+                       "fuel": float(res_.fuel_consumption_total_kg), "hours": float(res_.running_hours_genset_total_hr)}
             flat = whole["scalars"] + whole["co2"] + [m for _, m in whole["fuel"]]
             if any(isinstance(x, float) and (math.isnan(x) or math.isinf(x)) for x in flat):
                 return {"rejected": "non-finite: a bus without balancing capacity"}
@@ -158,15 +181,37 @@ class P(Prop):
             scaled = self.one(case, take(inp, list(range(n)), case["scale"]))
         except (InputError, ValueError, StopIteration) as e:
             return {"rejected": type(e).__name__ + ": " + str(e)[:80]}
-        return {"whole": whole, "parts": parts, "steps": steps, "perm": perm, "scaled": scaled, "reused": reused}
+        return {"whole": whole, "parts": parts, "steps": steps, "perm": perm, "scaled": scaled, "reused": reused, "e2e": e2e}
 
     def term(self, case, obs):
         if "rejected" in obs:
             return "true"
         n = len(scalar_fields())
         w = dict(obs["whole"]); w["detail"] = None
-        return (f"(check_parts {n}%nat {core.coq_list([coq_res_obs(r) for r in obs['parts']], sep=';' + chr(10))} {coq_ores(w)} && "
-                f"check_parts {n}%nat {core.coq_list([coq_res_obs(r) for r in obs['steps']], sep=';' + chr(10))} {coq_ores(w)})%bool")
+        t = (f"(check_parts {n}%nat {core.coq_list([coq_res_obs(r) for r in obs['parts']], sep=';' + chr(10))} {coq_ores(w)} && "
+             f"check_parts {n}%nat {core.coq_list([coq_res_obs(r) for r in obs['steps']], sep=';' + chr(10))} {coq_ores(w)})%bool")
+        if obs.get("e2e"):
+            import plantgen as pg
+            from props.C01 import coq_plant, coq_sts
+            e, plant, inp = obs["e2e"], case["plant"], case["inp"]
+            for d, r in zip(plant["comps"], e["rated"]):
+                d["rated_obs"] = Fraction(r)
+            cs, cn, gs = [], [], []
+            for d in plant["comps"]:
+                if d["cls"] in ("genset", "genset_rect"):
+                    eff = Fraction(d["eff"][0]) * (Fraction(d["rect_eff"][0]) if d["cls"] == "genset_rect" else 1)
+                    cs.append(Fraction(d["engine"]["bsfc"][0]) / eff / 3600000)
+                    cn.append(Fraction(d["engine"]["bsfc"][0]) * eff / 3600000)
+                    gs.append(True)
+                else:
+                    cs.append(Fraction(0)); cn.append(Fraction(0)); gs.append(False)
+            sts = coq_sts(plant, inp) if plant["breakers"] else core.coq_list(["[]" for _ in range(inp["n"])])
+            t2 = (f"check_run [{coq_plant(plant, inp, e['pin'])[1:-1]}]\n  {core.coq_edges(plant['breakers'])} {core.coq_nat_list(plant['swbs'])} {sts} "
+                  f"{core.coq_q_list(inp['dt'])} {core.coq_q_list(cs)} {core.coq_q_list(cn)} {core.coq_bool_list(gs)} {core.coq_fl(e['fuel'])} {core.coq_fl(e['hours'])}")
+            for d in plant["comps"]:
+                d.pop("rated_obs", None)
+            t = f"({t} && {t2})%bool"
+        return t
 
     def add(self, snaps):
         acc = {}
@@ -220,6 +265,10 @@ class P(Prop):
             t.append("storage-charged-and-discharged-with-equal-power")
         if case.get("periodic_breaker_schedule"):
             t.append("periodic-breaker-schedule-cut-at-a-period-boundary")
+        if obs.get("e2e"):
+            t.append("end-to-end: plant inputs -> fuel and genset hours evaluated by the model")
+        if case.get("swap_step"):
+            t.append("one-breaker-opens-while-another-closes(constructed)")
         if case.get("matrix_api"):
             t.append("statuses-through-matrix-setters")
         if inp.get("sts") and any(inp["sts"][i] != inp["sts"][i - 1] for i in range(1, inp["n"])):
